@@ -179,11 +179,12 @@ Print Assumptions C07_http_mpub_text_cases.
 
 Theorem C07_http_mpub_binary_exact :
   (forall max_msg max_body cl bodies, cl <= max_body ->
-  batch_ok max_msg max_body bodies ->
+  batch_ok max_msg max_body bodies -> len (encode_mpub bodies) <= max_body ->
   http_mpub_binary max_msg max_body cl (encode_mpub bodies) = HOk bodies) /\
   (forall max_msg max_body cl body bodies, wf_bytes body ->
   http_mpub_binary max_msg max_body cl body = HOk bodies ->
-  exists rest, body = encode_mpub bodies ++ rest /\ batch_ok max_msg max_body bodies).
+  exists rest, body = encode_mpub bodies ++ rest /\ batch_ok max_msg max_body bodies /\
+               len (encode_mpub bodies) <= Z.max 0 max_body).
 Proof. exact (conj http_mpub_binary_accepts http_mpub_binary_inv). Qed.
 Print Assumptions C07_http_mpub_binary_exact.
 
